@@ -43,6 +43,8 @@
 #define PRE_FOREACH_REVERSE(c, r) A_RBT_PRE_FOREACH_REVERSE(c, r)
 #define POST_FOREACH(c, r) A_RBT_POST_FOREACH(c, r)
 #define POST_FOREACH_REVERSE(c, r) A_RBT_POST_FOREACH_REVERSE(c, r)
+#define LC(x) a_rbt_##x
+#define UC_FORTEAR(c, n, r) A_RBT_FORTEAR(c, n, r)
 #else
 #include "a/avl.h"
 #define NODE a_avl_node
@@ -71,6 +73,8 @@
 #define PRE_FOREACH_REVERSE(c, r) A_AVL_PRE_FOREACH_REVERSE(c, r)
 #define POST_FOREACH(c, r) A_AVL_POST_FOREACH(c, r)
 #define POST_FOREACH_REVERSE(c, r) A_AVL_POST_FOREACH_REVERSE(c, r)
+#define LC(x) a_avl_##x
+#define UC_FORTEAR(c, n, r) A_AVL_FORTEAR(c, n, r)
 #endif
 #if defined(__SANITIZE_ADDRESS__)
 #include <sanitizer/asan_interface.h>
@@ -398,6 +402,19 @@ static void put_seq(FILE *f, char const *name, int const *a, int n)
         fputc(',', f);                                                    \
     } while (0)
 
+/* the lower-case spelling of the same macros declares its own cursor */
+#define COLLECT_LC(MACRO, name)                                           \
+    do {                                                                  \
+        int cnt = 0;                                                      \
+        MACRO(cur, &root)                                                 \
+        {                                                                 \
+            if (cnt > N + 1) { break; }                                   \
+            seq[cnt++] = id_of(cur);                                      \
+        }                                                                 \
+        put_seq(f, name, seq, cnt);                                       \
+        fputc(',', f);                                                    \
+    } while (0)
+
 #define STEPS(FN, name)                                                   \
     do {                                                                  \
         for (int k = 1; k <= N; ++k) { seq[k - 1] = id_of(FN(&nd[k].node)); } \
@@ -468,6 +485,25 @@ static void iter_shape(FILE *f, proj const *shape)
     COLLECT(PRE_FOREACH_REVERSE, "prerev");
     COLLECT(POST_FOREACH, "post");
     COLLECT(POST_FOREACH_REVERSE, "postrev");
+    COLLECT_LC(LC(foreach), "fwd2");
+    COLLECT_LC(LC(foreach_reverse), "rev2");
+    COLLECT_LC(LC(pre_foreach), "pre2");
+    COLLECT_LC(LC(pre_foreach_reverse), "prerev2");
+    COLLECT_LC(LC(post_foreach), "post2");
+    COLLECT_LC(LC(post_foreach_reverse), "postrev2");
+    {
+        /* the tear-down loop macros (both spellings) on fresh copies: hand out every node once */
+        int cnt = 0;
+        NODE *cur, *nxt;
+        materialise(shape);
+        UC_FORTEAR(cur, nxt, &root) { if (cnt > N + 1) { break; } seq[cnt++] = id_of(cur); }
+        put_seq(f, "fortear", seq, cnt); fputc(',', f);
+        cnt = 0;
+        materialise(shape);
+        LC(fortear)(c2, n2, &root) { if (cnt > N + 1) { break; } seq[cnt++] = id_of(c2); }
+        put_seq(f, "fortear2", seq, cnt); fputc(',', f);
+        materialise(shape);
+    }
     STEPS(T_NEXT, "next");
     STEPS(T_PREV, "prev");
     STEPS(T_PRE_NEXT, "pnext");
